@@ -315,24 +315,31 @@ def step (fs : List String) : String :=
       | some j => s!"{j}:{showM (ms[i]?.getD .none)}"
       | none => "new"
     esc (String.intercalate " " items) ++ "\t" ++ esc (String.intercalate "\x01" (GE.Rlm.uniq nk))
-  | "tagsem" :: tsx :: d0 :: steps =>
-    -- abstract template + data history: the node tree after creation and after every update (guards not evaluated: every binding is
-    -- re-evaluated), each node with the step that created it
+  | "tagsem" :: tsx :: names :: d0 :: steps =>
+    -- abstract template + data history: the advertised fields (among `names`), then the node tree after creation and after every step
+    -- (guards not evaluated: every binding is re-evaluated), each node with the step that created it. A step is `u<data>` (update, object
+    -- tree), `t<data>` (update, the whole data tree is `true`) or `b<field>|<data>` (run the binding-map updaters of one field)
     match parseSExp tsx, parseSExp d0 with
     | some (.list (.atom "tmpl" :: ns)), some d0x =>
-      -- (a step whose whole data tree is `true` is written with a leading `!`)
-      let stepOf (x : String) : Option (Bool × GE.TagSem.J) :=
-        let whole := x.startsWith "!"
-        ((parseSExp (if whole then (x.drop 1).toString else x)).bind jOfSExp).map fun d => (whole, d)
+      let stepOf (x : String) : Option (Char × String × GE.TagSem.J) :=
+        match chars x with
+        | 'u' :: r => ((parseSExp (str r)).bind jOfSExp).map fun d => ('u', "", d)
+        | 't' :: r => ((parseSExp (str r)).bind jOfSExp).map fun d => ('t', "", d)
+        | 'b' :: r =>
+          let f := r.takeWhile (· != '|')
+          ((parseSExp (str (r.dropWhile (· != '|')).tail)).bind jOfSExp).map fun d => ('b', str f, d)
+        | _ => none
       match tplsOfSExps [] ns, jOfSExp d0x, steps.mapM stepOf with
       | some ts, some D0, some Ds =>
         let t : GE.TagSem.Tpl GE.TagSem.TE := .block ts
+        let adv := (if names.isEmpty then [] else names.splitOn ",").filter fun f => GE.TagSem.advertised GE.TagSem.jsonSem f t
         let n0 := GE.TagSem.create GE.TagSem.jsonSem 0 D0 [] t
-        let (_, _, outs) := Ds.foldl (fun (st : Nat × GE.TagSem.Node GE.TagSem.J × List String) (wd : Bool × GE.TagSem.J) =>
+        let (_, _, outs) := Ds.foldl (fun (st : Nat × GE.TagSem.Node GE.TagSem.J × List String) (wd : Char × String × GE.TagSem.J) =>
           let (now, n, acc) := st
-          let n' := GE.TagSem.update GE.TagSem.jsonSem now wd.2 [] wd.1 [] t n
+          let n' := if wd.1 == 'b' then GE.TagSem.bmUpdate GE.TagSem.jsonSem wd.2.2 [] wd.2.1 t n
+                    else GE.TagSem.update GE.TagSem.jsonSem now wd.2.2 [] (wd.1 == 't') [] t n
           (now + 1, n', acc ++ [if n'.hasUnsup then "unsupported" else n'.print])) (1, n0, [if n0.hasUnsup then "unsupported" else n0.print])
-        "\t".intercalate (outs.map esc)
+        "\t".intercalate ((",".intercalate adv :: outs).map esc)
       | _, _, _ => "bad-tree"
     | _, _ => "bad-sexp"
   | ["mix_print", pieces] =>
